@@ -239,28 +239,33 @@ MoveComp(cfg, st, c, p) ==
      ELSE [s1 EXCEPT !.cp = SetPlacedWp(cfg, s1.cp, c, p),
                      !.pc[p] = AddPlaced(cfg, s1.pc[p], c)]
 
-\* 3-1: placement of the task's component
-PlaceFor(cfg, st, t) ==
+\* 3-1: placement of the task's component: at most once per step (moved = components placed
+\* earlier in this allocation phase) and not after one of its tasks has been given workers
+\* (fix of D15).  Returns [st, moved].
+PlaceFor(cfg, st, moved, t) ==
   LET c == cfg.tasks[t].comp
-  IN IF c = 0 \/ ~CompIsReady(cfg, st, c) THEN st
+      same == [st |-> st, moved |-> moved]
+  IN IF c = 0 \/ ~CompIsReady(cfg, st, c) \/ c \in moved
+        \/ (\E u \in TasksOf(cfg, c): Len(st.aw[u]) > 0) THEN same
      ELSE LET avail == [p \in Wps(cfg) |-> Avail(cfg, st, p)]
               cand == StableSortBy(cfg.tasks[t].wps,
                                    WorkplaceKey(cfg, cfg.tasks[t].prule, t, avail))
               ok == SelectSeq(cand, LAMBDA p: CanPlace(cfg, st, t, c, p))
-          IN IF Len(ok) = 0 THEN st ELSE MoveComp(cfg, st, c, ok[1])
+          IN IF Len(ok) = 0 THEN same
+             ELSE [st |-> MoveComp(cfg, st, c, ok[1]), moved |-> moved \cup {c}]
 
 GiveWorker(st, t, w) ==
   [st EXCEPT !.aw[t] = Append(st.aw[t], w), !.wt[w] = Append(st.wt[w], t)]
 
-\* acc = [st, free]; free = the free_worker_list local variable of __allocate
+\* acc = [st, free, moved]; free = the free_worker_list local variable of __allocate
 AllocWorkersPlain(cfg, acc, t) ==
   LET free2 == StableSortBy(acc.free, WorkerKey(cfg, cfg.tasks[t].wrule, t, 0))
       cands == SelectSeq(free2, LAMBDA w: HasSkill(cfg, w, t) /\ TeamTargets(cfg, w, t))
   IN FoldLeft(LAMBDA a, w:
                 IF CanAdd(cfg, a.st, t, w, 0)
-                THEN [st |-> GiveWorker(a.st, t, w), free |-> RemoveElem(a.free, w)]
+                THEN [a EXCEPT !.st = GiveWorker(a.st, t, w), !.free = RemoveElem(a.free, w)]
                 ELSE a,
-              [st |-> acc.st, free |-> free2], cands)
+              [acc EXCEPT !.free = free2], cands)
 
 AllocPairs(cfg, acc, t) ==
   LET p == acc.st.cp[cfg.tasks[t].comp]
@@ -277,16 +282,17 @@ AllocPairs(cfg, acc, t) ==
                  IN IF Len(sw) = 0 THEN a
                     ELSE LET w == sw[1]
                              s1 == GiveWorker(a.st, t, w)
-                         IN [st |-> [s1 EXCEPT !.af[t] = Append(s1.af[t], f),
-                                               !.ft[f] = Append(s1.ft[f], t)],
-                             free |-> RemoveElem(a.free, w)],
+                         IN [a EXCEPT !.st = [s1 EXCEPT !.af[t] = Append(s1.af[t], f),
+                                                         !.ft[f] = Append(s1.ft[f], t)],
+                                      !.free = RemoveElem(a.free, w)],
                acc, candF)
 
 \* one iteration of "for task in ready_and_working_task_list"
 AllocTask(cfg, acc, t) ==
   IF acc.st.crash THEN acc
-  ELSE LET s1 == PlaceFor(cfg, acc.st, t)
-           a1 == [st |-> s1, free |-> acc.free]
+  ELSE LET pl == PlaceFor(cfg, acc.st, acc.moved, t)
+           s1 == pl.st
+           a1 == [st |-> s1, free |-> acc.free, moved |-> pl.moved]
        IN IF s1.crash \/ cfg.tasks[t].auto THEN a1
           ELSE IF cfg.tasks[t].needF THEN AllocPairs(cfg, a1, t)
           ELSE AllocWorkersPlain(cfg, a1, t)
@@ -296,7 +302,7 @@ AllocOrder(cfg, opts, st) ==
                          LAMBDA t: st.ts[t] \in {"READY", "WORKING"}),
                TaskKey(cfg, st, opts.rule))
 AllocStart(cfg, st) ==
-  [st |-> st, free |-> SelectSeq([i \in Workers(cfg) |-> i], LAMBDA w: st.ws[w] = "FREE")]
+  [st |-> st, free |-> SelectSeq([i \in Workers(cfg) |-> i], LAMBDA w: st.ws[w] = "FREE"), moved |-> {}]
 \* accumulator after the first k tasks of the sorted list
 AllocPrefix(cfg, opts, st, k) ==
   FoldLeft(LAMBDA a, t: AllocTask(cfg, a, t), AllocStart(cfg, st),
